@@ -124,7 +124,7 @@ def model_request(sc, created_key):
             fsl.append('%s:%s' % (_hp(q), 'P' if os.path.dirname(q) and os.path.dirname(q) not in sc['dirs'] else 'A'))
     gz = ['-:R:-']        # an input truncated to nothing (the output path is the input path) is no gzip stream
     for name, (content, mode) in sc['files'].items():
-        if name.lower().endswith('.gz'):
+        if True:      # every file: which names are decompressed is the program's business (the endings are probed), what gunzip makes of the bytes is the table's
             import gzip, io, zlib
             try:
                 if len(content) < 18: raise ValueError('shorter than header + trailer')
